@@ -586,6 +586,14 @@ fn matcher_checks(cx: &mut Ctx, b: &Built, o: &Opts, hays: &[Vec<u8>], extra_wor
     // --- F: the property on generated buffers
     let word = if extra_word { word_table_sx() } else { "(word)" };
     let (mut any_match, mut any_nonmatch) = (false, false);
+    // engine vs denotation: one pipelined batch of requests for all short buffers
+    let engine_ok = sx.len() < 30000;
+    let span_reqs: Vec<String> = hays
+        .iter()
+        .filter(|h| engine_ok && h.len() <= 14)
+        .map(|h| format!("c11.spans {} {} {}", sx, hex(h), word))
+        .collect();
+    let mut span_replies = cx.drv.ask_all(&span_reqs).into_iter();
     for hay in hays {
         cx.rep.eval();
         let ms = all_matches(&b.matcher, hay);
@@ -653,8 +661,8 @@ fn matcher_checks(cx: &mut Ctx, b: &Built, o: &Opts, hays: &[Vec<u8>], extra_wor
             cx.rep.branch(if best == Some(i) { "cand:eq-leftmost-literal" } else { "cand:differs-from-leftmost-literal" });
         }
         // engine vs denotation
-        if hay.len() <= 14 && sx.len() < 30000 {
-            let reply = cx.drv.ask(&format!("c11.spans {} {} {}", sx, hex(hay), word));
+        if engine_ok && hay.len() <= 14 {
+            let reply = span_replies.next().unwrap();
             let spans: Vec<(usize, usize)> = if reply == "-" {
                 vec![]
             } else {
@@ -892,7 +900,7 @@ fn main() {
         // (a) harvested patterns under rg's default configuration and one random configuration each
         let harvested = harvest_patterns(&repo);
         rep.notes.push(format!("harvested {} patterns from {}", harvested.len(), repo));
-        let cap = args.cases.unwrap_or(if args.thorough { usize::MAX } else { 700 });
+        let cap = args.cases.unwrap_or(if args.thorough { usize::MAX } else { 500 });
         let step = (harvested.len() / cap.max(1)).max(1);
         for (i, p) in harvested.iter().enumerate() {
             if !args.thorough && i % step != 0 {
@@ -912,7 +920,7 @@ fn main() {
             let pats = enumerate(size, &mut memo);
             let total = pats.len();
             // quick tier: every pattern of size ≤ 2, a fixed stride of size 3
-            let stride = if args.thorough { if size == 4 { 7 } else { 1 } } else if size == 3 { 5 } else { 1 };
+            let stride = if args.thorough { if size == 4 { 7 } else { 1 } } else if size == 3 { 7 } else { 1 };
             for (i, p) in pats.iter().enumerate() {
                 if i % stride != 0 {
                     continue;
@@ -941,7 +949,7 @@ fn main() {
         rep.exhaustive = false;
         let _ = count;
         // (c) random larger patterns, random configurations, several patterns
-        let n = args.cases.unwrap_or(if args.thorough { 30000 } else { 1500 });
+        let n = args.cases.unwrap_or(if args.thorough { 30000 } else { 1200 });
         for _ in 0..n {
             let np = if rng.chance(1, 5) { rng.range(2, 3) } else { 1 };
             let pats: Vec<String> = (0..np).map(|_| random_pattern(&mut rng, 3)).collect();
